@@ -129,3 +129,33 @@ def py(v):
     if v is UNIT: return '()'
     if isinstance(v, Opaque): return '<%s>' % v.kind
     return v
+
+LEX_FMT_TY = 'conversion::string::impl_lexical::format::NarseseFormat'
+LEX_NARSESE_TY = 'narsese_value::NarseseValue<lexical::term::Term, lexical::sentence::Sentence, lexical::task::Task>'
+
+def format_enum(it, fmt, value):
+    """NarseseFormat::format_narsese(&fmt, &narsese) -> String (interpreter value)"""
+    return it.call_named('conversion::string::impl_enum::format::NarseseFormat::<&str>::format_narsese',
+                         [Ref([fmt], 0), Ref([value], 0)], ['&' + FMT_TY, '&' + NARSESE_TY], 'std::string::String')
+
+def lex_parse(it, lfmt, chars):
+    return it.call_named('conversion::string::impl_lexical::format::NarseseFormat::parse',
+                         [Ref([lfmt], 0), Str(chars)], ['&' + LEX_FMT_TY, '&str'], None)
+
+def lex_parse_term(it, lfmt, chars):
+    return it.call_named('conversion::string::impl_lexical::format::NarseseFormat::parse_term',
+                         [Ref([lfmt], 0), Str(chars)], ['&' + LEX_FMT_TY, '&str'], None)
+
+def lex_format(it, lfmt, value):
+    return it.call_named('conversion::string::impl_lexical::format::NarseseFormat::format_narsese',
+                         [Ref([lfmt], 0), Ref([value], 0)], ['&' + LEX_FMT_TY, '&' + LEX_NARSESE_TY], 'std::string::String')
+
+def lex_fold(it, value, efmt):
+    """<lexical Narsese as TryFoldInto<enum Narsese, FoldError>>::try_fold_into(value, &enum_format)"""
+    return it.call_named('<%s as TryFoldInto<%s, FoldError>>::try_fold_into' % (LEX_NARSESE_TY, NARSESE_TY),
+                         [value, Ref([efmt], 0)], [LEX_NARSESE_TY, '&' + FMT_TY], 'Result<%s, FoldError>' % NARSESE_TY)
+
+def typst_format(it, value):
+    fz = Agg('conversion::string::typst_formatter::definition::FormatterTypst', [])
+    return it.call_named('<%s as FormatTo<&FormatterTypst, String>>::format_to' % NARSESE_TY,
+                         [Ref([value], 0), Ref([fz], 0)], ['&' + NARSESE_TY, '&conversion::string::typst_formatter::definition::FormatterTypst'], 'std::string::String')
